@@ -733,6 +733,18 @@ impl<'a> Parser<'a> {
         } else {
             let result = (|| Some(Path::new(&path.source).file_name()?.to_str()?))();
             if let Some(filename) = result {
+                // The module's variable is named after the file. A reserved word cannot be
+                // referred to, and `self` / `super` would shadow the compiler's own variables of
+                // that name.
+                let mut scanner = Scanner::from_source(filename.to_string());
+                let word = scanner.scan_token();
+                if word.source == filename
+                    && word.kind != TokenKind::Identifier
+                    && scanner.scan_token().kind == TokenKind::Eof
+                {
+                    self.error("Cannot name a module after a reserved word; use 'as'.");
+                    return;
+                }
                 Token::from_string_and_line(filename, self.current.line)
             } else {
                 self.error("Expected a module path.");
